@@ -5,7 +5,8 @@ Decided: SignedRefs<Verified> can only be produced by `verified()` behind
 successful signature check by the retained key over the canonical text of the
 retained refs with the retained signature, and behind the identity-root binding
 (absent, or resolvable and equal to this repository's id); the canonical text covers
-every ref of the map (no iteration of Refs::canonical skips the oid or the name).
+every ref of the map (no iteration of Refs::canonical skips the oid or the name);
+a signature / key is built from a byte string only of exactly the right length.
 Not decided: the text round trip; tamper detection as a cryptographic fact."""
 import re
 
